@@ -134,3 +134,23 @@ def sany(module, cwd=SPEC):
     ok = p.returncode == 0 and "Semantic errors" not in p.stdout and "Fatal" not in p.stdout \
         and "*** Errors" not in p.stdout and "Parse Error" not in p.stdout
     return ok, p.stdout
+
+
+def apalache(module, init, inv, length, cinit=None, timeout=600):
+    """apalache-mc check; returns (outcome 'NoError' | 'Error' | None, wall seconds, tail of the output)"""
+    out_dir = scratch_dir("apalache_")
+    cmd = ["apalache-mc", "check", "--init=" + init, "--inv=" + inv, "--length=%d" % length, "--out-dir=" + out_dir]
+    if cinit:
+        cmd.append("--cinit=" + cinit)
+    cmd.append(os.path.join(SPEC, module if module.endswith(".tla") else module + ".tla"))
+    t0 = time.time()
+    try:
+        p = subprocess.run(cmd, cwd=out_dir, stdout=subprocess.PIPE, stderr=subprocess.STDOUT, timeout=timeout, text=True,
+                           errors="replace")
+        out = p.stdout
+    except subprocess.TimeoutExpired:
+        out = "timeout"
+    finally:
+        shutil.rmtree(out_dir, ignore_errors=True)
+    m = re.search(r"The outcome is: (\w+)", out)
+    return (m.group(1) if m else None), time.time() - t0, out[-800:]
